@@ -415,6 +415,61 @@ func checkC13(c *Check) {
 			if s, ok := ast.Unparen(atom).(*ast.SelectorExpr); ok && s.Sel.Name == "HandshakeComplete" {
 				return handshake, true
 			}
+			// sums of lengths (`len(eeRecs)+len(taRecs) == 0`): evaluated with the model lengths 0 / 1
+			if be, ok := ast.Unparen(atom).(*ast.BinaryExpr); ok {
+				if _, isSum := ast.Unparen(be.X).(*ast.BinaryExpr); isSum {
+					var ev func(e ast.Expr) (int64, bool)
+					ev = func(e ast.Expr) (int64, bool) {
+						e = ast.Unparen(e)
+						if tv, has := info.Types[e]; has && tv.Value != nil && tv.Value.Kind() == constant.Int {
+							v, exact := constant.Int64Val(tv.Value)
+							return v, exact
+						}
+						switch x := e.(type) {
+						case *ast.BinaryExpr:
+							if x.Op == token.ADD {
+								a, okA := ev(x.X)
+								b, okB := ev(x.Y)
+								return a + b, okA && okB
+							}
+						case *ast.CallExpr:
+							if id, isID := x.Fun.(*ast.Ident); isID && id.Name == "len" && len(x.Args) == 1 {
+								o := objOf(info, x.Args[0])
+								switch {
+								case o != nil && o == recsParam:
+									if hasRecs {
+										return 1, true
+									}
+									return 0, true
+								case o != nil && o == eeObj && eeEmpty >= 0:
+									return int64(1 - eeEmpty), true
+								case o != nil && o == taObj && taEmpty >= 0:
+									return int64(1 - taEmpty), true
+								}
+							}
+						}
+						return 0, false
+					}
+					if l, okL := ev(be.X); okL {
+						if rv, okR := ev(be.Y); okR {
+							switch be.Op {
+							case token.EQL:
+								return l == rv, true
+							case token.NEQ:
+								return l != rv, true
+							case token.GTR:
+								return l > rv, true
+							case token.GEQ:
+								return l >= rv, true
+							case token.LSS:
+								return l < rv, true
+							case token.LEQ:
+								return l <= rv, true
+							}
+						}
+					}
+				}
+			}
 			if v, k := lenAtom(atom, recsParam, !hasRecs); k {
 				return v, k
 			}
@@ -917,7 +972,6 @@ func checkC13(c *Check) {
 		}
 	}
 }
-
 
 func fmtInts(v []int64) string {
 	s := "{"
